@@ -198,3 +198,167 @@ Example C11_nonvacuous_fold_average :
 Proof.
   cbv zeta. split; [intros; ring|]. split; [intros; reflexivity|]. vm_compute. reflexivity.
 Qed.
+
+(* ==================================================================================================================== *)
+(* Extension "assemble": the model-assembly code of src/gboost/model.cpp inside the model (C11_Assemble_Defs, built on the   *)
+(* C10 learner model: wl, predict, scale, merge). Loop bounds, the 1/folds factor, the (trial, fold) read, the reset of the  *)
+(* learner list and the cut-back index are kernels translated from the source on every run (Src_asm).                       *)
+(* ==================================================================================================================== *)
+From LN Require Import C10_Defs C10_Proofs C11_Assemble_Defs C11_Assemble.
+Local Open Scope Q_scope.
+
+(* gboost_model_t::do_predict, for every model, sample and previous contents of the buffer: the result is the accumulation,
+   in list order, of the learners' increments on the row that was ASSIGNED the bias (definition unfolded from the code's
+   loop); it has one entry per output; it does not depend on what the buffer held; and it is the bias plus the sum of the
+   weak learners' own predictions (each from zero). *)
+Theorem C11_predict_bias_plus_learners : forall (no : nat) (m : gbm) (s : sample) (prev : list Q),
+  gbm_predict no m s prev = sum_incrs no (g_bias m) (map (fun w => incr no w s) (g_ws m)) prev /\
+  length (gbm_predict no m s prev) = no /\
+  (forall prev', gbm_predict no m s prev' = gbm_predict no m s prev) /\
+  (forall o, (o < no)%nat ->
+     rget o (gbm_predict no m s prev)
+     == rget o (g_bias m) + C10_Defs.qsum (map (fun w => rget o (predict no w s (zeros no))) (g_ws m))).
+Proof. exact gbm_predict_spec. Qed.
+Print Assumptions C11_predict_bias_plus_learners.
+
+(* ::fit, the per-round accumulation, for every list of rounds (learner, gstate.x(), locally tuned ratio or none), every
+   initial shrinkage ratio and every sample: one learner is stored per round, and the sample's row of the `outputs` buffer
+   (outputs += woutputs, woutputs *= ratio under local shrinkage) equals predict() of the model made of the bias and the
+   learners stored so far -- the errors/losses the early-stopping monitor sees at a round are those of that model. *)
+Theorem C11_loop_outputs_are_model_predictions :
+  forall (no : nat) (s : sample) (ratio0 : Q) (bias : list Q) (rs : list bround) (prev : list Q),
+    let st := bloop no s ratio0 bias rs in
+    length (bs_ws st) = length rs /\ length (bs_out st) = no /\
+    forall o, (o < no)%nat -> rget o (bs_out st) == rget o (gbm_predict no (mk_gbm bias (bs_ws st)) s prev).
+Proof. exact loop_outputs_spec. Qed.
+Print Assumptions C11_loop_outputs_are_model_predictions.
+
+(* The cut-back, composed with C11_round_is_kept: for every event sequence of the boosting loop the fold model returned by
+   ::fit (result.done(optimum.round()): erase, then wlearner::merge) holds the merge of exactly the learners of the rounds
+   before the optimum round r* -- never more than r* learners -- and predicts bias + the sum of those r* learners. *)
+Theorem C11_cut_back_keeps_rounds_before_optimum :
+  forall (T V : Type) (ltb : T -> T -> bool) (sub : T -> T -> T) (eps tmax : T) (patience : Z)
+         (bias : list Q) (max_rounds : nat) (o0 : obs T V) (evs : list (ev T V wl)),
+    let st := boost ltb sub eps tmax patience max_rounds o0 evs in
+    let r := es_round (ls_es st) in
+    g_bias (fold_model bias st) = bias /\
+    g_ws (fold_model bias st) = merge (kept_learners st) /\
+    g_ws (fold_model bias st) = merge (firstn (Z.to_nat r) (round_ws (firstn max_rounds evs))) /\
+    (Z.of_nat (length (g_ws (fold_model bias st))) <= r)%Z /\
+    forall no s prev o, (o < no)%nat ->
+      rget o (gbm_predict no (fold_model bias st) s prev)
+      == rget o bias + psum no (firstn (Z.to_nat r) (round_ws (firstn max_rounds evs))) s o.
+Proof. exact fold_model_spec. Qed.
+Print Assumptions C11_cut_back_keeps_rounds_before_optimum.
+
+(* ... and the cut-back model predicts exactly the outputs the loop held right after round r (the ones the optimum's
+   per-sample values were computed from), whatever was appended after the rounds (the scaling-failure learner). *)
+Theorem C11_fold_model_predicts_optimum_outputs :
+  forall (no : nat) (s : sample) (ratio0 : Q) (bias : list Q) (rs : list bround) (extra : list wl) (r : Z)
+         (prev : list Q) (o : nat),
+    (o < no)%nat -> (0 <= r <= Z.of_nat (length rs))%Z ->
+    rget o (gbm_predict no (mk_gbm bias (result_done r (bs_ws (bloop no s ratio0 bias rs) ++ extra))) s prev)
+    == rget o (bs_out (bloop no s ratio0 bias (firstn (Z.to_nat r) rs))).
+Proof. exact cut_back_outputs. Qed.
+Print Assumptions C11_fold_model_predicts_optimum_outputs.
+
+(* gboost_model_t::fit: the fold loop visits fold = 0, .., folds - 1 in this order, and the models it reads through
+   fit_result.extra(optimum_trial, fold) are the entries slot(optimum_trial, fold) of m_extras, all inside the table. *)
+Theorem C11_assembly_reads_the_optimum_folds :
+  (forall folds, (0 <= folds)%Z -> asm_folds_visited folds = map Z.of_nat (seq 0 (Z.to_nat folds))) /\
+  (forall extras folds t fold, asm_pick extras folds t fold = nth (Z.to_nat (slot folds t fold)) extras gbm0) /\
+  (forall extras folds trials t, (0 <= t < trials)%Z -> Z.of_nat (length extras) = (folds * trials)%Z ->
+     length (fold_models extras folds t) = Z.to_nat folds /\
+     forall f, (f < Z.to_nat folds)%nat ->
+       (0 <= t * folds + Z.of_nat f < Z.of_nat (length extras))%Z /\
+       (t * folds + Z.of_nat f)%Z = slot folds t (Z.of_nat f) /\
+       nth_error extras (Z.to_nat (t * folds + Z.of_nat f)) = Some (nth f (fold_models extras folds t) gbm0)).
+Proof. exact (conj asm_folds_visited_spec (conj asm_pick_spec fold_models_in_range)). Qed.
+Print Assumptions C11_assembly_reads_the_optimum_folds.
+
+(* Closed form of the assembled model, for every number of folds, every table of fold models and every state [m] the object
+   was in: the learners are the merge of the concatenated fold learners (fold 0 first), each scaled by 1/folds; the stored
+   bias is the average of the fold biases; nothing depends on [m]. *)
+Theorem C11_assemble_closed_form : forall (no : nat) (m : gbm) (extras : list gbm) (folds t : Z), (0 <= folds)%Z ->
+  let fms := fold_models extras folds t in
+  let fin := assemble no m extras folds t in
+  g_ws fin = map (scale [1 / inject_Z folds]) (merge (concat (map g_ws fms))) /\
+  (forall o, (o < no)%nat ->
+     rget o (g_bias fin) == C10_Defs.qsum (map (fun f => rget o (g_bias f)) fms) * (1 / inject_Z folds)) /\
+  assemble no m extras folds t = assemble no gbm0 extras folds t.
+Proof. exact assemble_spec. Qed.
+Print Assumptions C11_assemble_closed_form.
+
+(* The final model predicts, for every sample and every output, the average over the folds of the optimum trial of the fold
+   models' predictions (through C10: scale multiplies the prediction, merge preserves the summed prediction) -- also in the
+   form the driver evaluates on the real per-learner vectors (avg_rows of the fold models' rows). *)
+Theorem C11_final_predicts_fold_average :
+  forall (no : nat) (m : gbm) (extras : list gbm) (folds t : Z) (s : sample) (prev : list Q) (o : nat),
+    (0 < folds)%Z -> (o < no)%nat ->
+    let fms := fold_models extras folds t in
+    rget o (gbm_predict no (assemble no m extras folds t) s prev)
+    == C10_Defs.qsum (map (fun f => rget o (gbm_predict no f s prev)) fms) / inject_Z folds /\
+    rget o (gbm_predict no (assemble no m extras folds t) s prev)
+    == rget o (avg_rows no (map (fun f => gbm_predict no f s prev) fms)).
+Proof. exact final_predicts_fold_average. Qed.
+Print Assumptions C11_final_predicts_fold_average.
+
+(* Re-fitting the same object (seed C11/1): whatever model the object holds when fit() is called, the fold loop starts from
+   an empty learner list and a zero bias. (The number of learners kept by the reset is the kernel src_asm_reset_size, read
+   from the statements between the bias reset and the fold loop: without `m_wlearners.clear()` it is n * 1.) *)
+Theorem C11_refit_starts_empty : forall (no : nat) (m : gbm),
+  g_ws (asm_reset no m) = [] /\ g_bias (asm_reset no m) = zeros no.
+Proof. exact refit_starts_empty. Qed.
+Print Assumptions C11_refit_starts_empty.
+
+(* ---------------- non-vacuity of the extension ---------------- *)
+Definition exa_stump (lo hi : Q) : wl := WStump 0 0 [lo] [hi].
+Definition exa_aff (w b : Q) : wl := WAffine 0 [w] [b].
+Definition exa_s : sample := [FNum 2].
+
+(* predict: bias 1, a stump (x = 2 >= 0 -> 5) and an affine learner (3 * 2 + 1): 13, whatever the buffer held *)
+Example C11_nonvacuous_predict :
+  (0 < 1)%nat /\ gbm_predict 1 (mk_gbm [1] [exa_stump 4 5; exa_aff 3 1]) exa_s [100] = gbm_predict 1 (mk_gbm [1] [exa_stump 4 5; exa_aff 3 1]) exa_s [] /\
+  rget 0 (gbm_predict 1 (mk_gbm [1] [exa_stump 4 5; exa_aff 3 1]) exa_s [100]) == 13.
+Proof. split; [lia|]. split; reflexivity. Qed.
+
+(* two rounds with local shrinkage: the tuned ratio of round 1 (1/2) also multiplies gstate.x() of round 2 *)
+Example C11_nonvacuous_loop_outputs :
+  let st := bloop 1 exa_s 1 [1] [mk_br (exa_stump 4 6) [2] (Some (1#2)); mk_br (exa_aff 1 0) [3] None] in
+  length (bs_ws st) = 2%nat /\ rget 0 (bs_out st) == 10 /\ bs_ratio st == 1#2 /\
+  rget 0 (gbm_predict 1 (mk_gbm [1] (bs_ws st)) exa_s []) == 10.
+Proof. vm_compute. repeat split; reflexivity. Qed.
+
+(* the loop of C11_nonvacuous_loop with learners of the C10 model: three learners stored, the optimum round is 1 *)
+Example C11_nonvacuous_cut_back :
+  let st := boost Z.ltb Z.sub 2%Z 1000%Z 2 10 (ex_obs 40 50 0)
+                  [EvRound (exa_stump 1 2) (ex_obs 30 40 0); EvRound (exa_stump 3 4) (ex_obs 30 39 0);
+                   EvScaleFail (exa_aff 1 1); EvRound (exa_aff 2 2) (ex_obs 1 1 0)] in
+  es_round (ls_es st) = 1%Z /\ length (ls_learners st) = 3%nat /\ g_ws (fold_model [7] st) = [exa_stump 1 2] /\
+  rget 0 (gbm_predict 1 (fold_model [7] st) exa_s []) == 9.
+Proof. vm_compute. repeat split; reflexivity. Qed.
+
+Example C11_nonvacuous_optimum_outputs :
+  (0 < 1)%nat /\ (0 <= 1 <= Z.of_nat 2)%Z /\
+  rget 0 (bs_out (bloop 1 exa_s 1 [1] (firstn 1 [mk_br (exa_stump 4 6) [2] None; mk_br (exa_aff 1 0) [3] None]))) == 13.
+Proof. split; [lia|]. split; [lia|]. vm_compute. reflexivity. Qed.
+
+(* m_extras of 2 trials x 2 folds; the optimum trial is 1: slots 2 and 3. Fold models: (bias 1, [affine 2x+0; stump]) and
+   (bias 3, [affine 4x+2]): the affine learners merge across the folds, the object's previous learner is forgotten *)
+Definition exa_extras : list gbm :=
+  [mk_gbm [100] [exa_stump 9 9]; mk_gbm [100] []; mk_gbm [1] [exa_aff 2 0; exa_stump 4 6]; mk_gbm [3] [exa_aff 4 2]].
+Example C11_nonvacuous_reads :
+  (0 <= 2)%Z /\ asm_folds_visited 2 = [0%Z; 1%Z] /\ (0 <= 1 < 2)%Z /\ Z.of_nat (length exa_extras) = (2 * 2)%Z /\
+  fold_models exa_extras 2 1 = [mk_gbm [1] [exa_aff 2 0; exa_stump 4 6]; mk_gbm [3] [exa_aff 4 2]].
+Proof. vm_compute. repeat split; intros; discriminate. Qed.
+Example C11_nonvacuous_assemble :
+  let fin := assemble 1 (mk_gbm [50] [exa_stump 8 8]) exa_extras 2 1 in
+  (0 < 2)%Z /\ length (g_ws fin) = 2%nat /\ rget 0 (g_bias fin) == 2 /\
+  (* fold models predict 1 + 4 + 6 = 11 and 3 + 10 = 13 at x = 2: the final model predicts 12 *)
+  rget 0 (gbm_predict 1 fin exa_s [77]) == 12 /\
+  rget 0 (avg_rows 1 (map (fun f => gbm_predict 1 f exa_s []) (fold_models exa_extras 2 1))) == 12.
+Proof. vm_compute. repeat split; reflexivity. Qed.
+Example C11_nonvacuous_refit :
+  g_ws (asm_reset 1 (mk_gbm [50] [exa_stump 8 8; exa_aff 1 1])) = [] /\
+  assemble 1 (mk_gbm [50] [exa_stump 8 8]) exa_extras 2 1 = assemble 1 gbm0 exa_extras 2 1.
+Proof. vm_compute. split; reflexivity. Qed.
